@@ -43,7 +43,13 @@ RULE = ('Pool per worker: the repository sample of every self-describing '
         'a file whose extension names a reader before probing a neutral-named'
         ' file that >=2 registered readers accept (humidity/'
         'vertical_diffusivity/one3d family, bpch family, netCDF/IOAPI '
-        'family).  Distinct by sha1 of the history.')
+        'family).  The pool also holds the ICARTT sample under three other '
+        'delimiters (comma, comma+blank, tab: first line "36,1001" etc.).  One '
+        'step in forty is "many:<file>": the file is opened and closed 80 '
+        'times with only 64 free descriptors (soft RLIMIT_NOFILE lowered '
+        'for the step); every open must have the reference outcome and the '
+        'probe afterwards must equal the reference ("no matter how often").'
+        '  Distinct by sha1 of the history.')
 ASSUMPTIONS = ['the global reader registry is restored from its import-time '
                'snapshot at the top of every case (R6)',
                'sample files of the repository stand for their formats; '
@@ -58,6 +64,31 @@ BROKEN = [('trunc_humidity', 10), ('trunc_uamiv', 40), ('trunc_bpch', 30),
           ('trunc_ffi1001', 20), ('trunc_lateral_boundary', 500)]
 REWRITE_KINDS = ['uamiv', 'humidity', 'vertical_diffusivity', 'ffi1001',
                  'lateral_boundary', 'nc1', 'nc2', 'io', 'trunc_uamiv']
+# header spellings of the same ICARTT content (first line "NLHEAD, FFI" with
+# comma, comma+blank, blank): (kind, sample, format, first line)
+VARIANTS = [('ffi1001c', 'ffi1001', 'ffi1001', b','),
+            ('ffi1001cb', 'ffi1001', 'ffi1001', b', '),
+            ('ffi1001t', 'ffi1001', 'ffi1001', b'\t')]
+
+
+def icartt_delimited(blob, sep):
+    """the blank-delimited ICARTT sample re-written with another delimiter
+    on every list line (first line, volume line, dates, scale factors,
+    missing codes, column names, data records)"""
+    lines = blob.split(b'\n')
+    nhead = int(lines[0].split()[0])
+    nv = int(lines[9].split()[0])
+    listlines = {0, 5, 6, 10, 11, nhead - 1} | set(range(nhead, len(lines)))
+    out = []
+    for i, ln in enumerate(lines):
+        if i in listlines and ln.strip():
+            ln = sep.join(ln.split())
+        out.append(ln)
+    assert nv == len(lines[10].split())
+    return b'\n'.join(out)
+MANY_N = 80          # opens of one file in a 'many:' step
+MANY_HEADROOM = 64   # descriptors left to the process during that step (one
+#                      auto-detecting open transiently holds a few dozen)
 AMBIGUOUS = {'humidity', 'vertical_diffusivity', 'bpch', 'nc1', 'nc2', 'io'}
 _POOL = {}
 
@@ -105,6 +136,17 @@ def build_fixed_pool(d):
                 fo.write(blob)
         pool['s:' + k] = dict(path=s, fmt=None, kind=k, suffix=True)
         pool['n:' + k] = dict(path=n, fmt=None, kind=k, suffix=False)
+    for k, base, fmt, line1 in VARIANTS:
+        with open(sp[base], 'rb') as fi:
+            blob = fi.read()
+        blob = icartt_delimited(blob, line1)
+        s = os.path.join(d, 'sfx_%s.%s' % (k, fmt))
+        n = os.path.join(d, 'neutral_%s.dat' % k)
+        for pth in (s, n):
+            with open(pth, 'wb') as fo:
+                fo.write(blob)
+        pool['s:' + k] = dict(path=s, fmt=fmt, kind=k, suffix=True)
+        pool['n:' + k] = dict(path=n, fmt=fmt, kind=k, suffix=False)
     # a little-endian uamiv file: readable only when the format is named
     # and endian='little' is passed
     with open(sp['uamiv'], 'rb') as fi:
@@ -282,6 +324,9 @@ def _main_ref(d):
         ext = {'netcdf': 'nc'}.get(base, base)
         pool['s:' + k] = os.path.join(d, 'sfx_%s.%s' % (k, ext))
         pool['n:' + k] = os.path.join(d, 'neutral_%s.dat' % k)
+    for k, base, fmt, line1 in VARIANTS:
+        pool['s:' + k] = os.path.join(d, 'sfx_%s.%s' % (k, fmt))
+        pool['n:' + k] = os.path.join(d, 'neutral_%s.dat' % k)
     refs = {}
     for k, p in pool.items():
         libstate.reset()    # every reference is taken with an empty history
@@ -303,7 +348,11 @@ def _main_ref_dummy(d):
 # ------------------------------------------------------------------ strategy
 POOLKEYS = ['s:' + k for k in SAMPLES] + ['n:' + k for k in SAMPLES] + \
     ['s:nc1', 'n:nc1', 's:nc2', 'n:nc2', 's:io', 'n:io'] + \
-    ['s:' + k for k, _ in BROKEN] + ['n:' + k for k, _ in BROKEN][:2]
+    ['s:' + k for k, _ in BROKEN] + ['n:' + k for k, _ in BROKEN][:2] + \
+    ['s:' + v[0] for v in VARIANTS] + ['n:' + v[0] for v in VARIANTS]
+MANYKEYS = ['s:nc1', 'n:nc1', 's:io', 'n:io', 's:nc2', 'n:nc2', 's:uamiv',
+            'n:humidity', 's:ffi1001', 'n:bpch', 'n:lateral_boundary',
+            's:trunc_uamiv', 'n:trunc_humidity']
 
 
 @st.composite
@@ -332,6 +381,9 @@ def cases(draw, tier='quick'):
                                       's:c15rec', 's:uamiv', 'n:uamiv']))
         else:
             h = draw(st.sampled_from(POOLKEYS))
+        if draw(st.integers(0, 39)) == 0:
+            # "no matter how often": the same file opened MANY_N times
+            hist.append('many:' + draw(st.sampled_from(MANYKEYS)))
         if h == 'reg':
             # registration in mid-session, followed (now or later) by a probe
             # of the file whose suffix names the newly registered reader
@@ -378,6 +430,48 @@ def make_case_pool(case, d):
                                XORIG=0., YORIG=0., XCELL=1000., YCELL=1000.))
     save(iof, 'io', 'nc', 'NETCDF3_CLASSIC', 'ioapi', 'io')
     return pool
+
+
+def open_many(e):
+    """open and close the file MANY_N times with only MANY_HEADROOM free
+    descriptors (soft RLIMIT_NOFILE lowered for the duration): every open must
+    have the outcome of the reference, and a full probe afterwards must equal
+    it.  Returns a message or None."""
+    import resource
+    from PseudoNetCDF import pncopen
+    want_ok = e['ref'][0] in ('ok', 'read-raise')
+    soft, hard = resource.getrlimit(resource.RLIMIT_NOFILE)
+    top = max(int(x) for x in os.listdir('/proc/self/fd')) + 1
+    cwd = os.getcwd()
+    os.chdir(os.path.dirname(e['path']))
+    msg = None
+    try:
+        resource.setrlimit(resource.RLIMIT_NOFILE,
+                           (min(soft, top + MANY_HEADROOM), hard))
+        for i in range(MANY_N):
+            exc, f = attempt(pncopen, e['path'], **(e.get('kw') or {}))
+            if exc is None:
+                libstate.release(f)
+                del f
+            if (exc is None) != want_ok:
+                msg = 'open #%d of %d: %s, reference %s' % (
+                    i + 1, MANY_N, 'succeeds' if exc is None else
+                    'raises %s: %s' % (type(exc).__name__, str(exc)[:80]),
+                    'opens' if want_ok else 'raises %s' % e['ref'][1])
+                break
+            if exc is not None and type(exc).__name__ != e['ref'][1]:
+                msg = 'open #%d of %d raises %s, reference raises %s' % (
+                    i + 1, MANY_N, type(exc).__name__, e['ref'][1])
+                break
+        gc.collect()
+    finally:
+        resource.setrlimit(resource.RLIMIT_NOFILE, (soft, hard))
+        os.chdir(cwd)
+    if msg is None:
+        d = compare(e['ref'], probe(e['path'], **(e.get('kw') or {})))
+        if d is not None:
+            msg = 'after %d opens: %s' % (MANY_N, d[1])
+    return msg
 
 
 def compare(ref, got):
@@ -427,6 +521,17 @@ def check_case(case):
                 register_dummies()
                 registered[0] = True
                 r.label('mid-session-registration')
+                continue
+            if key.startswith('many:'):
+                e = pool[key[5:]]
+                r.label('opened-%d-times' % MANY_N)
+                nt = True
+                msg = open_many(e)
+                if msg:
+                    r.fail('repeat-outcome', 'step %d: %s (%s name): %s' % (
+                        i, e['kind'], 'suffix' if e['suffix'] else 'neutral',
+                        msg), klass=e['kind'])
+                    break
                 continue
             if key.startswith('w='):
                 # rewrite the scratch path with another file's content; the
